@@ -64,6 +64,20 @@ Proof.
 Qed.
 Print Assumptions C03_der_non_minimal_rejected.
 
+(* ASN1Decode as coded (Unmarshal with ANY parser that is right on canonical
+   encodings, then re-Marshal and compare): its accept set is exactly the
+   image of the encoder, whatever else the parser tolerates; on inputs below
+   2^32 bytes it is the strict decoder above. *)
+Theorem C03_asn1_decode_reencode_check :
+  forall (unmarshal : bytes -> option (Z * Z)),
+    (forall r s, unmarshal (der_encode r s) = Some (r, s)) ->
+    (forall b r s, asn1_decode_impl unmarshal b = Some (r, s) <-> b = der_encode r s) /\
+    (forall b, wfb b -> N.of_nat (length b) < 4294967296 -> asn1_decode_impl unmarshal b = der_decode b).
+Proof.
+  intros u Hu. split; [apply asn1_decode_impl_spec; exact Hu|apply asn1_decode_impl_is_der_decode; exact Hu].
+Qed.
+Print Assumptions C03_asn1_decode_reencode_check.
+
 (* the parser inside crypto/ecdsa.VerifyASN1: the same, non-negative only *)
 Theorem C03_parse_sig_accept_set :
   forall (b : bytes) (r s : N), wfb b ->
